@@ -1,5 +1,6 @@
 import EupsModel.Drv.Util
 import EupsModel.Model.Expand
+import EupsModel.Model.ExpandTable
 namespace EupsModel.Drv.C17
 open Lean EupsModel EupsModel.Drv EupsModel.Expand
 
@@ -43,6 +44,28 @@ def itemJson : Item → Json
   | .gen ind t => Json.mkObj [("t", "gen"), ("ind", Json.num ind), ("text", ofStr t)]
   | .pin ind opt n v => Json.mkObj [("t", "pin"), ("ind", Json.num ind), ("optional", opt), ("name", ofStr n), ("version", ofStr v)]
   | .fin t => Json.mkObj [("t", "fin"), ("text", ofStr t)]
+
+def extraJson : TableParse.Extra → Json
+  | .none => Json.mkObj []
+  | .optional b => Json.mkObj [("optional", b)]
+  | .append b => Json.mkObj [("append", b)]
+
+def actionJson (a : TableParse.Action) : Json :=
+  Json.mkObj [("cmd", ofStr a.cmd), ("args", ofStrs a.args), ("extra", extraJson a.extra)]
+
+/-- the expanded table read by the model of the table reader in exact mode (`C17_exact_actions_text`): the hypotheses
+`itemOK` / `inertItem` evaluated on the items, the action list composed from the items (`exactActs`) and the one the
+reader's model computes from the text itself -/
+def exactJson (flavor : Str) (items : List Item) : Json :=
+  let env : Cond.Env := ⟨flavor, [ExpandTable.sExactW]⟩
+  let direct := match TableParse.tableActions TableParse.repaired none env (ExpandTable.expandedText items true) with
+    | .ok acts => Json.arr (acts.map actionJson).toArray
+    | .err _ => Json.str "error"
+    | .fuel => Json.str "fuel"
+  Json.mkObj [("itemOK", items.all (ExpandTable.itemOK none)), ("inert", items.all (ExpandTable.inertItem none)),
+              ("flavorOK", C11Spec.flavorOK flavor),
+              ("acts", Json.arr ((items.flatMap (ExpandTable.exactActs none)).map actionJson).toArray),
+              ("direct", direct)]
 
 /-- `{"m":"c17","op":"expand","lines":[..],"pins":[[n,v]..],"toplevel":s|null,"force":b,"expandVersions":b,
 "addExactBlock":b,"recurse":b,"spv":[[n,v]..],"sv":[[n,v]..],"deps":[[n,v,null|[[n,v,opt]..]]..]}` →
@@ -90,7 +113,11 @@ def handle : Handler := fun j => do
                         ("items", Json.arr (items.map itemJson).toArray),
                         -- the hypotheses of C17_exact_reproduces_partial evaluated on these answers
                         ("hyps", Json.mkObj [("depsSound", D.depsSound), ("pinsAgree", D.pinsAgree),
-                                             ("covered", D.covered o lines), ("noExactLine", noExactLine A o lines)])])
+                                             ("covered", D.covered o lines), ("noExactLine", noExactLine A o lines)]),
+                        -- with "flavor": the expanded table read in exact mode (C17_exact_actions_text)
+                        ("exact", match jstr j "flavor" with
+                          | .ok fl => exactJson fl items
+                          | .error _ => Json.null)])
   | _ => throw s!"unknown op {op}"
 
 end EupsModel.Drv.C17
